@@ -1651,8 +1651,8 @@ def c09(rep, tier, seed, wd, replay):
                        "released so far for its key must be SUCCEEDED (Lean judge); (c) each history's last batch is also executed entry "
                        "by entry on a twin instance with the identical prefix: verdicts must be equal position by position, under "
                        "several GOMAXPROCS; non-trivial = history with >=1 batch of >=2 entries")
-    rep.assumptions += ["liveness is judged on fault-free, import-free histories only (a landed-but-failed write or an import legitimately "
-                        "leaves a record above everything signed)"]
+    rep.assumptions += ["liveness is judged on import-free histories whose only faults are store calls that fail WITHOUT taking effect "
+                        "(a landed-but-failed write or an import legitimately leaves a record above everything signed); the faulted request itself is not judged"]
     prove(rep, "C09")
     dh = build_harness(wd)
     from common import run_model, sh
@@ -1699,11 +1699,14 @@ def c09(rep, tier, seed, wd, replay):
             f = op.split()
             if i >= len(h["impl"]):
                 break
+            # (a request during which a store call was MADE to fail is not judged itself: the one after it is)
+            faulted = (f[0] in ("att", "prop") and len(f) > 5 and f[5] != "-") or (f[0] == "atts" and f[3] != "-")
             if f[0] == "att":
                 key = hist.key_of_addr(f[3], h["accts"])
                 d = f[4].split(",")
                 st = hist.states_of(h["impl"][i])[0]
-                yield ("jliveatt %s %s %s %s" % (key.hex(), d[4], d[6], st), (i, 0, op[:160]))
+                if not faulted:
+                    yield ("jliveatt %s %s %s %s" % (key.hex(), d[4], d[6], st), (i, 0, op[:160]))
                 if ":" in h["impl"][i]:
                     yield ("jatt %s %s" % (key.hex(), f[4]), (i, 0, "release"))
             elif f[0] == "atts":
@@ -1713,7 +1716,8 @@ def c09(rep, tier, seed, wd, replay):
                     adr, data = it.split(",", 1)
                     key = hist.key_of_addr(adr, h["accts"])
                     d = data.split(",")
-                    yield ("jliveatt %s %s %s %s" % (key.hex(), d[4], d[6], sts[j] if j < len(sts) else "?"), (i, j, op[:160]))
+                    if not faulted:
+                        yield ("jliveatt %s %s %s %s" % (key.hex(), d[4], d[6], sts[j] if j < len(sts) else "?"), (i, j, op[:160]))
                 for j, it in enumerate(f[4].split(";")):
                     adr, data = it.split(",", 1)
                     if j < len(pls) and pls[j]:
@@ -1722,7 +1726,8 @@ def c09(rep, tier, seed, wd, replay):
                 key = hist.key_of_addr(f[3], h["accts"])
                 d = f[4].split(",")
                 st = hist.states_of(h["impl"][i])[0]
-                yield ("jliveprop %s %s %s" % (key.hex(), d[1], st), (i, 0, op[:160]))
+                if not faulted:
+                    yield ("jliveprop %s %s %s" % (key.hex(), d[1], st), (i, 0, op[:160]))
                 if ":" in h["impl"][i]:
                     yield ("jprop %s %s" % (key.hex(), f[4]), (i, 0, "release"))
 
@@ -1751,6 +1756,20 @@ def c09(rep, tier, seed, wd, replay):
             ops_.append("atts %s - - %s" % (hx("client1"), ";".join(att_item(r2.choice(["n:" + hx(a_.path), "k:" + a_.pk.hex()]), 8, 10, 1) for a_ in order_)))
             ops_.append("atts %s - - %s" % (hx("client1"), ";".join(att_item("n:" + hx(a_.path), 10, 12, 2) for a_ in r2.shuffle(accts_))))
             H.append({"cfg": cfg_, "ops": ops_, "accts": accts_, "opts": {}})
+        # a state read or write that FAILS WITHOUT TAKING EFFECT (read error, write refused before it reached the store), then
+        # the very same duty again: nothing was recorded and nothing released, so it still advances and must be signed — singles
+        # and batches, for keys signed before in this run and for fresh ones
+        for flt in ("s", "b", "f0"):
+            accts_, perms_, adm_ = hist.std_config(keys_, nacct=4, locked=False)
+            cfg_ = hist.config_lines(accts_, perms_, adm_)
+            na, nb, nc = ("n:" + hx(accts_[i_].path) for i_ in range(3))
+            ka = "k:" + accts_[0].pk.hex()
+            b2 = lambda s_, t_, tg_: ";".join([att_item(na, s_, t_, tg_), att_item(nb, s_, t_, tg_)])
+            H.append({"cfg": cfg_, "accts": accts_, "opts": {}, "ops": [
+                att_line("client1", na, 1, 2, 0), att_line("client1", na, 2, 3, 0, faults=flt), att_line("client1", ka, 2, 3, 0), att_line("client1", na, 3, 4, 1),
+                "atts %s - %s %s" % (hx("client1"), flt, b2(4, 5, 0)), "atts %s - - %s" % (hx("client1"), b2(4, 5, 0)), "atts %s - - %s" % (hx("client1"), b2(5, 6, 1)),
+                att_line("client1", nc, 1, 2, 0, faults=flt), att_line("client1", nc, 1, 2, 0),
+                prop_line("client1", na, 5, 0), prop_line("client1", na, 6, 0, faults=flt), prop_line("client1", ka, 6, 0), prop_line("client1", na, 7, 1), "export"]})
         # batches of hundreds and thousands of validators at the ruler (synthetic keys): every valid, advancing entry is approved,
         # in one batch exactly as one at a time
         a2_, p2_, ad2_ = hist.std_config(keys_, nacct=2, locked=False)
@@ -2374,6 +2393,16 @@ def c03(rep, tier, seed, wd, replay):
     base = os.path.join(wd, "crash")
     os.makedirs(base, exist_ok=True)
     hists = [crash.gen_history(rng.fork(), accts) for _ in range(nh)]
+    # a crafted history first: batches whose keys arrive in DESCENDING (and in shuffled) order with a different target per
+    # key, a batch in which one entry is a stale resend (refused) while its neighbours advance, then singles — whatever the
+    # store does with a batch (ordering, de-duplication, chunking), each key's record must be that key's own
+    desc = sorted(accts, key=lambda a_: a_.pk, reverse=True)
+    mid = [desc[1], desc[2], desc[0]]
+    hists.insert(0, [conc.atts_op([conc.att_item(conc.name(a_), 1, 2 + 2 * q_, 0) for q_, a_ in enumerate(desc)]),
+                     conc.atts_op([conc.att_item(conc.key(a_), 1, [9, 2, 11][q_], 1) for q_, a_ in enumerate(mid)]),
+                     conc.att_op(conc.name(desc[2]), 1, 12, 0),
+                     conc.atts_op([conc.att_item(conc.name(desc[0]), 1, 13, 2), conc.att_item(conc.key(desc[1]), 1, 10, 2)]),
+                     conc.prop_op(conc.name(desc[0]), 3, 0)])
     if REPLAY is not None and "kill_at_point" in REPLAY:
         hists, cfg = [REPLAY["ops"]], REPLAY["config"]
         accts = hist.accts_from_config(cfg)
